@@ -122,6 +122,10 @@ func (k *Keyring) RemoveKey(key []byte) error {
 	k.l.Lock()
 	defer k.l.Unlock()
 
+	// Nothing to remove from an empty keyring
+	if len(k.keys) == 0 {
+		return nil
+	}
 	if bytes.Equal(key, k.keys[0]) {
 		return fmt.Errorf("removing the primary key is not allowed")
 	}
